@@ -645,7 +645,32 @@ def random_program(rnd, size=1.0):
     prog = g.program()
     nin = rnd.choice([0, 0, 1, 2, 5, 12])
     console = bytes(rnd.choice([rnd.randrange(256), rnd.randrange(32, 127), 0xFF, 0x80, 0]) for _ in range(nin))
+    if rnd.random() < 0.05:
+        prog, console = reenter_main(prog, console, rnd)
     return prog, console, g.files_in
+
+
+def reenter_main(prog, console, rnd):
+    """main is entered again from X code (directly or through a procedure), driven by the first input bytes, before
+    its own body runs in each activation."""
+    k = rnd.choice([1, 1, 2, 3])
+    procs = []
+    for p in prog["procs"]:
+        if p["name"] != "main":
+            procs.append(p)
+            continue
+        first = ("ass", ("var", "reent9"), ("sys", 2, [("num", 0)]))
+        if rnd.random() < 0.5:
+            again = ("if", ("bin", "=", ("var", "reent9"), ("chr", ord("r"))), ("callst", "main", []), ("skip",))
+        else:
+            again = ("callst", "reenter9", [("var", "reent9")])
+            procs.append({"kind": "proc", "name": "reenter9", "formals": [("val", "k")], "locals": [],
+                          "body": ("if", ("bin", "=", ("var", "k"), ("chr", ord("r"))), ("callst", "main", []), ("skip",))})
+        body = p["body"]
+        inner = list(body[1]) if body[0] == "seq" else [body]
+        procs.append({"kind": "proc", "name": "main", "formals": [], "locals": list(p["locals"]) + [("var", "reent9")],
+                      "body": ("seq", [first, again] + inner)})
+    return {"globals": prog["globals"], "procs": procs}, b"r" * k + b"." + console
 
 
 # --------------------------------------------------------------------------
@@ -1031,3 +1056,27 @@ def arraycopy_matrix(rnd, tier):
     for i in range(n):
         sub = rnd.randrange(1 << 62)
         yield ("arraycopy:%d" % sub, arraycopy_program(_r.Random(sub)))
+
+
+def reentry_matrix():
+    """main entered again from X code (by itself, through a procedure, through a function, from a loop): only the
+    activation started by the entry stub returns to the stub, and it must do so with the load-time stack pointer.
+    The recursion is driven by the input so that every variable is assigned before it is read."""
+    out = []
+    for nl in (0, 1, 3, 12):
+        locs = "".join("  var l%d;\n" % i for i in range(1, nl + 1))
+        use = "".join("  l%d := c + %d;\n" % (i, i) for i in range(1, nl + 1))
+        last = "l%d - %d" % (nl, nl) if nl else "c"
+        shapes = {
+            "self": ("", "if c = 'a' then main() else skip"),
+            "proc": ("proc p(val k) is if k = 'a' then main() else skip\n", "p(c)"),
+            "func": ("func f(val k) is { if k = 'a' then main() else skip; return k + 1 }\n", "g := f(c) - 1"),
+            "loop": ("", "{ g := c; while g = 'a' do { main(); g := 0 } }"),
+            "twice": ("", "if c = 'a' then { main(); main() } else skip"),
+        }
+        for name, (helpers, call) in shapes.items():
+            src = ("var g;\n" + helpers + "proc main() is\n  var c;\n" + locs + "{\n  c := 2(0);\n" + use +
+                   "  " + call + ";\n  1(" + last + ", 0)\n}\n")
+            for inp in (b"b", b"ab", b"aaab", b"aabab" + b"b" * 8, b"a" * 40 + b"b" * 60):
+                out.append(("reenter:%s:%d:%d" % (name, nl, len(inp)), xref.parse(src), inp))
+    return out
